@@ -9,6 +9,7 @@
      hr_connect            pkg/util/vhost/http.go   connectHandler
      hr_serve              pkg/util/vhost/http.go   serveRouted (after the credential check, which is C07's)
      hr_plugin_rewrite     pkg/plugin/client/http2http.go, http2https.go, https2http.go, https2https.go: Rewrite closures
+                           (http2http as repaired by a4afe3b: it copies the three X-Forwarded headers like http2https)
      hr_std_pre / hr_std_resp / hr_wire_hdrs
                            net/http/httputil.ReverseProxy.ServeHTTP and net/http.Transport: what the standard
                            library does before / after the closures.  These are NOT frp code; they are written
@@ -284,11 +285,39 @@ Inductive hr_connect_out :=
 | HrConnNotFound                     (* CreateConnection failed: NotFoundResponse written on the raw connection, closed *)
 | HrConnTunnel (preface : bytes).    (* req.Write(remote) then libio.Join(remote, client) *)
 
-Definition hr_connect (hijacker hijack_ok : bool) (conn_ok : bool) (reqbytes : bytes) : hr_connect_out :=
+(* [early]: what the server's read buffer holds behind the request head at the time of Hijack
+   (bufrw.Reader.Buffered()); written to the backend after the request since the repair eea1e0f *)
+Definition hr_connect (hijacker hijack_ok : bool) (conn_ok : bool) (reqbytes early : bytes) : hr_connect_out :=
   if negb hijacker then HrConn500
   else if negb hijack_ok then HrConn500
   else if negb conn_ok then HrConnNotFound
-  else HrConnTunnel reqbytes.
+  else HrConnTunnel (reqbytes ++ early).
+
+(* ---------------------------------------------------------------------------------------- *)
+(* A work connection served by a client plugin's net/http server (http2http, http2https, https2http,
+   https2https: p.s.Serve on the plugin's listener), request after request.
+   client/proxy/proxy.go:HandleTCPWorkConnection wraps the work connection in a snappy reader when
+   transport.useCompression is set and hands it over as ConnectionInfo.Conn; the plugins wrap it with
+   WrapReadWriteCloserToConn, whose SetReadDeadline reaches the raw work connection.
+   net/http: while a handler runs a background read is pending on the connection; when the handler
+   returns, the server interrupts that read by a read deadline in the past (connReader.abortPendingRead).
+   The raw connection recovers when the deadline is cleared; snappy.Reader stores the first error of its
+   source for ever (r.err), so every later read fails and the server drops the connection.
+   [pending]: for each request, whether the background read was in flight when its handler returned
+   (oracle; true whenever the handler takes longer than the request body, as a reverse proxy does). *)
+Record hk_conn := { hk_compressed : bool; hk_reader_failed : bool }.
+
+Definition hk_serve_one (c : hk_conn) (pending : bool) : hk_conn * bool :=
+  if hk_reader_failed c then (c, false)                         (* readRequest fails: connection closed, no answer *)
+  else ({| hk_compressed := hk_compressed c; hk_reader_failed := hk_compressed c && pending |}, true).
+
+Fixpoint hk_serve (c : hk_conn) (pendings : list bool) : list bool :=
+  match pendings with
+  | [] => []
+  | p :: r => let '(c', ok) := hk_serve_one c p in ok :: hk_serve c' r
+  end.
+
+Definition hk_fresh (compressed : bool) : hk_conn := {| hk_compressed := compressed; hk_reader_failed := false |}.
 
 (* ---------------------------------------------------------------------------------------- *)
 (* What the standard library does around the closures (not frp code; observed, see header). *)
@@ -445,8 +474,7 @@ Definition hr_plugin_scheme (p : hr_plugin) : bytes :=
 Definition hr_plugin_rewrite (p : hr_plugin) (o : hr_popts) (inr out : hr_req) : hr_req :=
   let carry k h := hr_assign k (hr_get k (hq_hdrs inr)) h in
   let h1 := match p with
-            | HrH2H => hq_hdrs out                                  (* nothing: forwarding headers stay deleted *)
-            | HrH2HS => carry hr_XFP (carry hr_XFH (carry hr_XFF (hq_hdrs out)))
+            | HrH2H | HrH2HS => carry hr_XFP (carry hr_XFH (carry hr_XFF (hq_hdrs out)))
             | HrHS2H | HrHS2HS => hr_set_xforwarded inr (carry hr_XFF (hq_hdrs out))
             end in
   let host := if hr_is_empty (hp_rewrite_host o) then hq_host out else hp_rewrite_host o in
